@@ -170,6 +170,7 @@ def r13_3(ctx: Ctx):
         ctx.fail(rid, f'role {e.role}', 'iOpt/', str(e), key=f'{rid}::role::{e.role}')
         return
     lst = roles.listener_methods()
+    C.refuse_comprehension_loop(ctx, rid, drv)
     ex = driver_explorer(ctx, [er, roles.optimum_updater])
 
     def lcalls(evs, name):
@@ -474,6 +475,30 @@ def r13_5(ctx: Ctx):
                 ctx.check(pname in used and not (used & {p for _, p in LABELS if p != pname}), rid, pr.short,
                           pr.loc(node), f'line "{lab[0].value.strip()}" prints {pname}',
                           f'the report line "{lab[0].value.strip()}" prints {sorted(used)}, not {pname}',
+                          key=f'{rid}::{pr.short}::label::{kw}')
+                break
+    # the same lines written as f-strings: f"|{'label: ':>29} {value:<{width}}|"
+    for node in ast.walk(pr.node):
+        if not isinstance(node, ast.JoinedStr):
+            continue
+        labs, used = [], set()
+        for part in node.values:
+            if isinstance(part, ast.Constant) and isinstance(part.value, str):
+                labs.append(part.value)
+            elif isinstance(part, ast.FormattedValue):
+                if isinstance(part.value, ast.Constant) and isinstance(part.value.value, str):
+                    labs.append(part.value.value)
+                else:
+                    used |= {x.id for x in ast.walk(part.value) if isinstance(x, ast.Name)}
+        label = ' '.join(labs).lower()
+        if not used:
+            continue
+        for kw, pname in LABELS:
+            if kw in label:
+                n2 += 1
+                ctx.check(pname in used and not (used & {p for _, p in LABELS if p != pname}), rid, pr.short,
+                          pr.loc(node), f'line "{label.strip(" |")}" prints {pname}',
+                          f'the report line "{label.strip(" |")}" prints {sorted(used)}, not {pname}',
                           key=f'{rid}::{pr.short}::label::{kw}')
                 break
     ctx.floor(rid, 'labelled lines of the final report', n2, 6)
